@@ -15,6 +15,7 @@ from ..model import MISSING, SessionModel
 from ..prng import sub
 
 ID = "C06"
+PROBES = ['probe_false_answer_on_plain_value', 'probe_identity_when_disabled', 'probe_second_operation', 'probe_identity_after_xfail_test', 'comparisons_judged']  # reach probes: counters that must be non-zero in a run (a zero is printed and recorded)
 LEVEL = "exploration"
 BUDGET = {"quick": 500, "thorough": 20000}
 WALL = {"quick": 300, "thorough": 3400}
